@@ -242,3 +242,13 @@ reg('C22', engine='llsym',
     note='Trusted: per-thread storage of __thread variables and errno (compiler/libc); generated API-mode wrappers use the same '
          'exported save/restore pair.',
     technique='symbolic execution of LLVM IR with environment havoc of errno, SMT (z3 bit-vectors)')
+
+reg('C13', engine='llsym',
+    text='Partial: (a) the real fb_build/fb_fill_type run twice as fb_prepare_cif does, with symbolic size/alignment per '
+         'argument: offsets aligned, areas disjoint and inside exchange_size, second pass writes exactly the counted bytes; '
+         '(c) wrappers generated at run time by the working tree\'s Recompiler for a family of identity functions are '
+         'compiled to IR and executed together with the backend IR: the C function receives exactly the value the libffi '
+         'path\'s convert_from_object stores for the same Python object, same exceptions, errno bracket in place.',
+    note='Trusted: clang IR of backend and generated code, llsym semantics, CPython contracts. libffi itself, struct-by-value, '
+         'variadic calls, pointer/char arguments and dlopen paths are not covered.',
+    technique='symbolic execution of LLVM IR (backend + run-time generated module), differential against the libffi-path kernel, SMT (z3)')
